@@ -496,11 +496,24 @@ func main() {
 	// time / duration / uuid / any / map (library-backed)
 	for i := 0; i < nint/4+4; i++ {
 		t := time.Unix(int64(r.Below(4000000000))-1000000000, int64(r.Below(1000000000))).UTC()
-		if i == 0 {
+		// the location is a dimension of a time value: the same instant must come back whatever zone it is held in
+		if zones := []*time.Location{nil, time.FixedZone("CEST", 2*3600), time.FixedZone("EST", -5*3600),
+			time.FixedZone("IST", 5*3600+1800), time.FixedZone("NPT", 5*3600+2700), time.FixedZone("LINT", 14*3600),
+			time.FixedZone("AoE", -12*3600), time.FixedZone("odd", -(3*3600 + 25*60 + 45)), time.FixedZone("GMT", 0), time.Local}; zones[i%len(zones)] != nil {
+			t = t.In(zones[i%len(zones)])
+		}
+		switch i {
+		case 0:
 			t = time.Time{}
+		case 1:
+			t = time.Date(1, 1, 1, 0, 0, 0, 1, time.UTC) // the first instant that is not the zero time
+		case 2:
+			t = time.Date(9999, 12, 31, 23, 59, 59, 999999999, time.FixedZone("W", -3600))
+		case 3:
+			t = time.Date(2024, 2, 29, 23, 59, 60, 0, time.FixedZone("E", 3600)) // normalised leap second, leap day
 		}
 		o := m2b(graphql.MarshalTime(t))
-		rtAny("Time", t.Format(time.RFC3339Nano), o, func(d any) bool {
+		rtAny("Time", t.Format("2006-01-02T15:04:05.999999999Z07:00:00"), o, func(d any) bool {
 			if t.IsZero() {
 				return d == nil
 			}
